@@ -18,7 +18,7 @@
      finds no ITE (no Implies) and changes nothing: P_Boolopt.remove_ITE_idem /
      remove_Implies_idem prove it for the model, so the clause omits it;
    - sympy library calls (simplify_logic, cse) are Section variables; symbols are
-     nat indices and [is_ret i] says that the name of symbol i starts with "_ret". *)
+     nat indices and [is_ret i] says that symbol i is a return bit (named "_ret" or "_ret.N..."). *)
 From Coq Require Import List Bool Arith.
 From QV Require Import Bexp BexpTT.
 Import ListNotations.
@@ -268,7 +268,7 @@ Section Oracles.
   (* sympy.cse; the first argument is the list of names it must not use for
      replacement symbols ([] in the shipped code: cse(exprs)) *)
   Variable cse : list nat -> list bexp -> defs * list bexp.
-  (* the name of symbol i starts with "_ret" *)
+  (* symbol i is a return bit: its name is "_ret" or starts with "_ret." *)
   Variable is_ret : nat -> bool.
   (* exp_transformers.DISABLE_OR *)
   Variable disable_or : bool.
